@@ -58,6 +58,7 @@ ParseJson(t) == LET r == Parse(t) IN
 CausesOK == LET r == Parse(Text) IN
             /\ (r[1] = "ok") = (Causes(Text) = {})
             /\ r[1] = "err" => <<r[2], r[3]>> \in Causes(Text)
+            /\ ParseLines(Lines(Text), 1, Empty) = ParseLinesRef(Lines(Text), 1, Empty)     \* fold = recursion
 \* accepted text: a value is everything after the first '=', repeats accumulate / last wins
 AcceptedOK == LET r == Parse(Text) IN
               r[1] = "ok" =>
